@@ -66,6 +66,12 @@ def scripts_for(pid, tier, seed, fx):
             L = 6 if thorough else 5
             for s in seqs([1, 2, 3], L):
                 add([f], [{"op": "call", "f": f, "k": k} for k in s], threads=1)
+            # a policy alone (no limit, ttl or memory bound) configures nothing that could drop a result
+            for pol in ("lru", "lfu", "arc", "random", "tlru"):
+                f2 = "%s_%s_unb" % (p, pol)
+                for s in seqs([1, 2, 3], 4):
+                    add([f2], [{"op": "call", "f": f2, "k": k} for k in s], threads=1)
+                rnd([f2], 2, 60, nkeys=20)
             # thread scope / sharing: all partitions of a history over two threads
             for s in seqs([(1, 1), (1, 2), (2, 1), (2, 2)], 5 if thorough else 4):
                 add([f], [{"op": "call", "f": f, "t": t, "k": k} for (t, k) in s], threads=2)
@@ -79,6 +85,15 @@ def scripts_for(pid, tier, seed, fx):
                         + [{"op": "call", "f": f, "k": 3, "ok": True, "size": 70},
                            {"op": "call", "f": f, "k": 1, "ok": True, "size": 70}])
                 rnd([f], 150 if thorough else 4, 80 if thorough else 60)
+            # ... with a ttl: an Ok expires, the recomputation fails (nothing is stored), later Oks are stored
+            f = p + "_res_ttl2"
+            alpha = [{"op": "call", "f": f, "k": 1, "ok": True}, {"op": "call", "f": f, "k": 1, "ok": False},
+                     {"op": "call", "f": f, "k": 2, "ok": True}, {"op": "call", "f": f, "k": 3, "ok": True},
+                     {"op": "tick", "d": 2}]
+            for s in seqs(alpha, 5 if thorough else 4):
+                add([f], [dict(alpha[0])] + [dict(o) for o in s]
+                    + [{"op": "call", "f": f, "k": 2, "ok": True}, {"op": "call", "f": f, "k": 3, "ok": True}])
+            rnd([f], 150 if thorough else 4, 80 if thorough else 60)
     elif pid == "C10":
         for _, p in KINDS:
             for f in (p + "_cif", p + "_cif_lru2", p + "_inv_cif", p + "_cif_mem", p + "_cif_ttl2"):
@@ -204,7 +219,11 @@ def scripts_for(pid, tier, seed, fx):
             rng.shuffle(out)
             del out[2500:]
     elif pid == "C15":
-        names = ["s_plain", "a_plain", "s_lru2", "a_lfu3_ttl2", "s_ttl1", "a_ttl1", "s_res", "a_res_cif",
+        unb = ["%s_%s_unb" % (p, pol) for p in ("s", "a") for pol in ("lru", "lfu", "arc", "random", "tlru")]
+        for f in unb:
+            for s in seqs([1, 2], 4):
+                add([f], [{"op": "call", "f": f, "k": k} for k in s] + [{"op": "stats_get", "x": fx[f]["cache_name"]}], threads=1)
+        names = unb + ["s_plain", "a_plain", "s_lru2", "a_lfu3_ttl2", "s_ttl1", "a_ttl1", "s_res", "a_res_cif",
                  "g_alias", "g_alias_async", "g_a", "g_dep", "s_inv", "a_inv_ttl2", "s_mem_lru", "a_mem_fifo"]
         for _ in range(3000 if thorough else 60):
             ns = rng.sample(names, rng.choice([1, 2, 3]))
